@@ -41,13 +41,7 @@ pub fn law_c01_consecutive(d: Date)
     let next = d.add_days(1);
     if let Ok(d2) = next {
         let (y2, m2, dd2) = d2.extract();
-        proof {
-            lemma_succ(y as int, m as int, dd as int);
-            lemma_civil_unique(d2.v());
-            let s = succ(y as int, m as int, dd as int);
-            lemma_year_range(d2.v() + 2440588);
-            assert(date_ok(s.0, s.1, s.2));
-        }
+        proof { lemma_civil_succ(d.v()); }
         assert((y2 as int, m2 as int, dd2 as int) == succ(y as int, m as int, dd as int));
     } else {
         assert(d.v() == 2932896);
